@@ -11,6 +11,7 @@ CONSTANTS
   AuctionImpl = "intended"
   Resolution = "locked"
   MaxRounds = 3
+  ErrKinds <- ErrKindsOne
 INVARIANTS TypeOKC11 RegistrationExact SignedOverContent ReuseOnlyIfUnchanged FailureIsolated PreparationExact PreparationIsolated ControlledDropped ForwardedUnchanged ForwardedAll F2ControlledDropped F2ForwardedUnchanged F2ForwardedAll KeepsLastGood CallsProgress
 
 CHECK_DEADLOCK FALSE
